@@ -1328,7 +1328,19 @@ class Interp:
             return v
         if e.id in ("True", "False", "None"):
             return {"True": True, "False": False, "None": None}[e.id]
-        return self.global_name(e.id, module)
+        try:
+            return self.global_name(e.id, module)
+        except Imprecise:
+            # a name the enclosing function assigns somewhere, read on a path that has not assigned it: Python raises
+            # UnboundLocalError (`result` after an exception skipped `result = work()`)
+            from .loader import parent as _parent
+            fn = _parent(e)
+            while fn is not None and not isinstance(fn, (ast.FunctionDef, ast.AsyncFunctionDef, ast.Lambda)):
+                fn = _parent(fn)
+            if isinstance(fn, (ast.FunctionDef, ast.AsyncFunctionDef)) and any(
+                    isinstance(y, ast.Name) and y.id == e.id and isinstance(y.ctx, ast.Store) for y in ast.walk(fn)):
+                raise PyRaise(ExcVal("UnboundLocalError", (f"cannot access local variable '{e.id}' where it is not associated with a value",)))
+            raise
 
     def e_JoinedStr(self, e, env, module):
         parts = []
@@ -2103,11 +2115,17 @@ class Interp:
                     if "default" in kwargs:
                         return kwargs["default"]
                     raise PyRaise(ExcVal("ValueError", ("empty sequence",)))
-                if any(isinstance(k, Unknown) for k in ks):
+                if any(isinstance(k, Unknown) or type(k).__name__ in ("Iv", "Lin") for k in ks):
+                    # keys that are not concrete numbers (unknowns, intervals): which item wins is decided by the oracle
+                    if len(items) == 1:
+                        return items[0]
                     i = self.o.choose(len(items), f"{name}(key) over {len(items)} items")
                     return items[i]
                 f = min if name == "min" else max
-                return items[f(range(len(items)), key=lambda i: ks[i])]
+                try:
+                    return items[f(range(len(items)), key=lambda i: ks[i])]
+                except TypeError as ex:
+                    raise PyRaise(ExcVal("TypeError", (str(ex),)))
             if name == "type":
                 x = args[0]
                 if isinstance(x, Obj) and x.cls:
